@@ -109,6 +109,15 @@ class Verbatim:
         self.rewrites = list(rewrites)
 
 
+class StructFields:
+    """A struct of the repository of which only the named fields are emitted (the others have types of
+    external crates that are not modelled); the kept field lines are copied verbatim."""
+
+    def __init__(self, header_re, keep):
+        self.header_re = header_re
+        self.keep = keep
+
+
 class Text:
     def __init__(self, text, tag=None):
         self.text = text
@@ -272,6 +281,25 @@ class Emitter:
             else:
                 self.repo_chunk(src, a, b)
             self.add('\n')
+        elif isinstance(it, StructFields):
+            a, b = rs.find_item(src.text, src.mask, it.header_re)
+            a = self._skip_dropped_attrs(src, a, b)
+            o = src.mask.find('{', a)
+            self.repo_chunk(src, a, o + 1)
+            self.add('\n')
+            body = src.text[o + 1:b - 1]
+            pos = o + 1
+            dropped = []
+            for line in body.split('\n'):
+                mo = re.match(r'\s*(?:pub(?:\([a-z]+\))?\s+)?(\w+)\s*:', line)
+                if mo and not line.strip().startswith('//'):
+                    if mo.group(1) in it.keep:
+                        self.chunks.append(Chunk(line + '\n', 'repo', file=src.rel, line=rs.line_of(src.text, pos)))
+                    else:
+                        dropped.append(mo.group(1))
+                pos += len(line) + 1
+            self.add('}\n')
+            self.log.append('%s: struct %s: fields not modelled (dropped): %s' % (src.rel, it.header_re, ', '.join(dropped)))
         elif isinstance(it, Fn):
             self.emit_fn(src, it, mod)
         elif isinstance(it, Impl):
